@@ -23,6 +23,7 @@ EXPLANATION = (
     " (R6) with multiplicities the products x*g and the integer product helper are bounded by max(total, numbers), and (R1, extended) the bit expansion of the multiplicity is sized from max_multiplicity (integer_ub), not from the product bound. "
     " (R7) values read from the solver are rounded, never truncated (int() / weight_type() on a raw value) and binaries are read by a threshold, never by == 1; data in equality rows is converted to Python numbers; (R5, extended) the complement total - x is removed only under max_multiplicity == 1; (R3, extended) the k-range grows by t - 1 per partition constraint with t parts. "
     "NOT decided: minimality; that complement removal preserves the optimum."
+    ' (R2, round 3) the first k tried is at least 1.'
 )
 DECIDED = ["formulation of both models", "search protocol and range of MinGenSet", "documented None defaults are usable", "complement removal is strict"]
 NOT_DECIDED = ["the returned multiset / cover is minimum", "complement removal is optimum preserving (number-theoretic argument)"]
